@@ -452,7 +452,7 @@ theorem evaluate_refines {g : Cfg} (hsz : 1 ≤ g.addressSize ∧ g.addressSize 
         · exact (Cap.hasRoom_iff _ _).mp hroom
         · intro row hrow
           apply hN row
-          simp only [List.mem_cons, List.cons_append] at hrow ⊢
+          simp only [List.mem_cons] at hrow ⊢
           rcases hrow with e | e | e
           · exact Or.inl e
           · exact Or.inl e
@@ -653,7 +653,7 @@ theorem reset_sim (g : Cfg) (hR : g.R.fits 1) :
     ({} : Row), [], [], rfl, ?_, rfl, .nil, .cie, by simpa using hR, ?_⟩
   · exact ⟨rfl, rfl, fun r => rfl, by simp [Rules.NodupKeys]⟩
   · intro row hrow
-    simp only [List.append_nil, List.mem_cons, List.not_mem_nil, or_false] at hrow
+    simp only [List.mem_cons, List.not_mem_nil, or_false] at hrow
     subst hrow
     cases g.N <;> simp [Cap.fits]
 
@@ -683,7 +683,7 @@ theorem saveInitialRules_refines {g : Cfg} {c : Ctx} {s : State} (h : Sim g c s)
       ⟨top, below, [], by simp, htop, hstart, hbelow,
         .zero (fun r => by rw [← htop.regs r, hrules]; rfl), by simpa using hR, by simpa using hN⟩
     refine ⟨?_, _, rfl, hsim⟩
-    simp only [hrules, List.length_nil] at hrows0 ⊢
+    simp only [List.length_nil] at hrows0 ⊢
     rw [exceeds_eq_false_iff]
     simp only [Nat.not_le_of_lt (by omega : 0 < 2), if_false, Nat.add_zero] at hrows0 ⊢
     rw [hrows0]; exact hR
@@ -695,13 +695,13 @@ theorem saveInitialRules_refines {g : Cfg} {c : Ctx} {s : State} (h : Sim g c s)
       ⟨top, below, [], by simp, htop, hstart, hbelow,
         .one (fun r => by rw [← htop.regs r, hrules]; simp [Rules.get_cons, eq_comm]), by simpa using hR, by simpa using hN⟩
     refine ⟨?_, _, rfl, hsim⟩
-    simp only [hrules, List.length_cons, List.length_nil] at hrows0 ⊢
+    simp only [List.length_cons, List.length_nil] at hrows0 ⊢
     rw [exceeds_eq_false_iff]
     simp only [Nat.not_le_of_lt (by omega : 0 + 1 < 2), if_false, Nat.add_zero] at hrows0 ⊢
     rw [hrows0]; exact hR
   | r1 :: r2 :: rs =>
     have h2 : 2 ≤ top.rules.length := by rw [hrules]; simp
-    simp only [hrules, List.length_cons] at hrows0 ⊢
+    simp only [List.length_cons] at hrows0 ⊢
     have hge : 2 ≤ rs.length + 1 + 1 := by omega
     simp only [hge, if_true] at hrows0 ⊢
     by_cases hroom : g.R.hasRoom (below.length + 1) = true
